@@ -18,7 +18,36 @@ def waiter_with_edge_default(case, msg, observed=None):
     return any(n.get("wait_for") and any(p in prod for p in n.get("defaults", {})) for n in g["nodes"])
 
 
-MATCHERS = {f.__name__: f for f in (waiter_with_edge_default,)}
+def ambiguous_cycle_entry(case, msg, observed=None):
+    """validate_inputs raises 'Ambiguous cycle entry' although the caller supplied no more than the required inputs and
+    the parameters of exactly ONE listed entry point per cycle: those values also cover another entry point of the same
+    cycle (nested parameter sets, or a seed shared with another cycle's entry point)."""
+    if "Ambiguous" not in (msg or ""):
+        return False
+    g = case.get("graph") if isinstance(case, dict) else None
+    entry = (observed or {}).get("entry") if isinstance(observed, dict) else None
+    run = case.get("run") if isinstance(case, dict) else None
+    if not g or not entry or not run:
+        return False
+    from harness.props.c08 import cycle_groups
+    groups = cycle_groups(g, entry)
+    chosen = run.get("entry_point") or []
+    if isinstance(chosen, str):
+        chosen = [chosen]
+    if sorted(len([e for e in grp if e in chosen]) for grp in groups) != [1] * len(groups):
+        return False
+    allowed = set((observed or {}).get("required", [])) | {p for e in chosen for p in entry[e]} | set(g.get("bound", {}))
+    provided = set(run.get("inputs", {})) | set(g.get("bound", {}))
+    if not provided <= allowed:
+        return False
+    for grp in groups:
+        sat = {tuple(entry[e]) for e in grp if set(entry[e]) <= provided}
+        if len(sat) > 1:
+            return True
+    return False
+
+
+MATCHERS = {f.__name__: f for f in (waiter_with_edge_default, ambiguous_cycle_entry)}
 
 
 def classify(ctx, case, msg, observed=None):
